@@ -59,11 +59,14 @@ let parse (toks : string list) : val0 =
 
 let () =
   let ic = open_in Sys.argv.(1) in
+  (* optional sharding: modelrun FILE SHARD NSHARDS evaluates only lines with lineno mod NSHARDS = SHARD *)
+  let shard = if Array.length Sys.argv > 3 then int_of_string Sys.argv.(2) else 0 in
+  let nshards = if Array.length Sys.argv > 3 then int_of_string Sys.argv.(3) else 1 in
   let cases = ref 0 and bad = ref 0 and lineno = ref 0 in
   (try while true do
     let line = input_line ic in
     incr lineno;
-    if String.length line > 0 then begin
+    if String.length line > 0 && !lineno mod nshards = shard then begin
       let toks = List.filter (fun s -> s <> "") (String.split_on_char ' ' line) in
       match toks with
       | name :: rest ->
